@@ -91,7 +91,12 @@ func emitElements(w *trace.Writer, t *fstree.Intern, b []byte) error {
 			m["kind"] = kindOfMode(e.Mode)
 			m["mode"] = e.Mode & 07777
 			m["uid"], m["gid"] = e.UID, e.GID
-			m["msec"], m["mnsec"] = e.MTime/1000000000, e.MTime%1000000000
+			ns := int64(e.MTime) // signed nanoseconds since the epoch
+			sec, nsec := ns/1000000000, ns%1000000000
+			if nsec < 0 {
+				sec, nsec = sec-1, nsec+1000000000
+			}
+			m["msec"], m["mnsec"] = sec, nsec
 		case "filename":
 			m["hash"] = rank[oracle.CasyncNameHash(e.Name)]
 			m["hashok"] = true
